@@ -185,6 +185,9 @@ func episodeViolations(prop string, o *runOut) (vs []violation, harnessErr strin
 		if rr.Harness {
 			return nil, "race report entirely inside the harness:\n" + firstLines(rr.Text, 30)
 		}
+		if rr.ThirdParty {
+			continue // counted in the evidence, not a verdict about sdfx
+		}
 		vs = append(vs, violation{Prop: prop, Class: "data-race", Msg: "race detector: " + rr.Summary + "\n" + firstLines(rr.Text, 40), Sig: "data-race|" + rr.Summary, Sc: o.sc, Race: rr.Summary, Trace: r.TraceHash})
 	}
 	return vs, ""
@@ -495,13 +498,20 @@ func buildEvidence(pl *plan, tier string, seed uint64, outs []runOut, nviol int,
 	distinct := map[string]bool{}
 	policies := map[string]int{}
 	nontrivial := 0
+	thirdParty := map[string]int{}
 	caseEvals := 0
 	maxPar := 0
 	races := 0
 	var samples []any
 	for i := range outs {
 		o := &outs[i]
-		races += len(o.races)
+		for _, rr := range o.races {
+			if rr.ThirdParty {
+				thirdParty[rr.Summary]++
+			} else {
+				races++
+			}
+		}
 		if o.res == nil {
 			continue
 		}
@@ -594,6 +604,7 @@ func buildEvidence(pl *plan, tier string, seed uint64, outs []runOut, nviol int,
 	cov["yield_sites_never_hit"] = never
 	cov["schedule_policies"] = policies
 	cov["race_reports"] = races
+	cov["third_party_race_reports_not_judged"] = thirdParty
 	cov["real_components"] = pl.real
 	cov["stub_components"] = pl.stubs
 	cov["seed_derivation"] = "episode seeds = splitmix64 stream of VERIF_SEED; every choice inside an episode comes from its seed"
